@@ -9,14 +9,73 @@ not raise, means that the library keeps per-request data in a place shared betwe
 strategy objects created once at import, class attributes).  The sequential answers themselves are judged by the other
 kinds of the same check.
 
+First use: a `cold` call issues the concurrent round BEFORE anything has been asked sequentially in this process (the
+caller makes sure the process is fresh), with a yield injected at library lines (sys.monitoring LINE events in files of
+the package: a short real sleep on a random share of the first few hundred lines of every thread), so that whatever the
+library sets up lazily on its first request - tables, caches, imports - is set up while other requests are in flight.
+The sequential answers are taken afterwards and compared as usual.
+
+Shared objects: a family may hand out requests that read ONE object from all threads (a strategy object asked for its
+series, a Weaver asked for its function); such requests do not change the object, so the answers must not depend on who
+else is asking.
+
 Requests that touch process-global state by contract (numpy.random in `noise`) or third-party code that is not
 re-entrant by its own documentation (FITPACK's smoothing-spline routines behind `splrep`) are not issued here.
 """
+import os
+import random
 import sys
 import threading
+import time
 from concurrent.futures import ThreadPoolExecutor
 
 import numpy as np
+
+
+class YieldInjector:
+    """Injects thread switches inside the library: a short real sleep at a random share of the first `per_thread` LINE
+    events that every thread executes in files under the package directory."""
+    TOOL = 4
+
+    def __init__(self, seed, per_thread=600, share=0.5, max_s=2e-4):
+        import traffic_weaver
+        self.root = os.path.dirname(os.path.realpath(traffic_weaver.__file__)) + os.sep
+        self.rnd = random.Random(seed)
+        self.per_thread, self.share, self.max_s = per_thread, share, max_s
+        self.tl = threading.local()
+        self.lines = 0
+        self.yields = 0
+        self.lock = threading.Lock()
+
+    def _line(self, code, _lineno):
+        if not os.path.realpath(code.co_filename).startswith(self.root):
+            return sys.monitoring.DISABLE
+        n = getattr(self.tl, "n", 0)
+        self.tl.n = n + 1
+        if n >= self.per_thread:
+            return None
+        with self.lock:
+            self.lines += 1
+            r = self.rnd.random()
+            d = self.rnd.random() * self.max_s
+        if r < self.share:
+            self.yields += 1
+            time.sleep(d)
+        return None
+
+    def __enter__(self):
+        mon = sys.monitoring
+        mon.use_tool_id(self.TOOL, "twverif-yield")
+        mon.register_callback(self.TOOL, mon.events.LINE, self._line)
+        mon.set_events(self.TOOL, mon.events.LINE)
+        return self
+
+    def __exit__(self, *a):
+        mon = sys.monitoring
+        mon.set_events(self.TOOL, 0)
+        mon.register_callback(self.TOOL, mon.events.LINE, None)
+        mon.free_tool_id(self.TOOL)
+        mon.restart_events()
 
 
 def _freeze(v):
@@ -36,34 +95,57 @@ def _answer(job):
         return ("exc", type(e).__name__)
 
 
-def isolation(ctx, cid, jobs, label, nthreads=4, rounds=3):
+def _concurrent_round(jobs, nthreads):
+    reqs = [f() for _d, f in jobs]
+    barrier = threading.Barrier(min(nthreads, len(reqs)))
+
+    def run(i):
+        if i < barrier.parties:
+            try:
+                barrier.wait(timeout=5)
+            except threading.BrokenBarrierError:
+                pass
+        return _answer(reqs[i])
+    with ThreadPoolExecutor(max_workers=nthreads) as ex:
+        return list(ex.map(run, range(len(reqs))))
+
+
+def isolation(ctx, cid, jobs, label, nthreads=4, rounds=3, cold=False):
     """jobs: list of (description, factory) where factory() returns a fresh zero-argument request (own data every time
-    it is built, same data for the same factory).  Returns True when every concurrent answer matched."""
-    seq = [_answer(f()) for _d, f in jobs]
+    it is built, same data for the same factory).  Returns True when every concurrent answer matched.
+    cold: the first concurrent round runs before the sequential pass, with yields injected at library lines."""
     old = sys.getswitchinterval()
+    first = None
+    if cold:
+        sys.setswitchinterval(1e-6)
+        try:
+            with YieldInjector(ctx.seed * 1000003 + len(jobs)) as inj:
+                first = _concurrent_round(jobs, nthreads)
+        finally:
+            sys.setswitchinterval(old)
+        ctx.monitor("threads:first_use:" + label, len(jobs))
+        ctx.monitor("threads:first_use_lines_seen", inj.lines)
+        ctx.monitor("threads:first_use_yields_injected", inj.yields)
+    seq = [_answer(f()) for _d, f in jobs]
+
+    def compare(conc, r, what):
+        for i, (a, b) in enumerate(zip(seq, conc)):
+            if a != b:
+                ctx.violation("concurrent_request_differs_from_its_sequential_answer:" + label + what, cid,
+                              {"request": jobs[i][0], "sequential": a[0] if a[0] == "ok" else a,
+                               "concurrent": b[0] if b[0] == "ok" else b, "round": r,
+                               "requests_in_flight": [d for d, _f in jobs][:8], "threads": nthreads})
+                return False
+        return True
+    if first is not None and not compare(first, "first use", ":first_use"):
+        return False
     sys.setswitchinterval(1e-6)
     try:
         for r in range(rounds):
-            reqs = [f() for _d, f in jobs]
-            barrier = threading.Barrier(min(nthreads, len(reqs)))
-
-            def run(i):
-                if i < barrier.parties:
-                    try:
-                        barrier.wait(timeout=5)
-                    except threading.BrokenBarrierError:
-                        pass
-                return _answer(reqs[i])
-            with ThreadPoolExecutor(max_workers=nthreads) as ex:
-                conc = list(ex.map(run, range(len(reqs))))
-            ctx.monitor("threads:" + label, len(reqs))
-            for i, (a, b) in enumerate(zip(seq, conc)):
-                if a != b:
-                    ctx.violation("concurrent_request_differs_from_its_sequential_answer:" + label, cid,
-                                  {"request": jobs[i][0], "sequential": a[0] if a[0] == "ok" else a,
-                                   "concurrent": b[0] if b[0] == "ok" else b, "round": r,
-                                   "requests_in_flight": [d for d, _f in jobs][:8], "threads": nthreads})
-                    return False
+            conc = _concurrent_round(jobs, nthreads)
+            ctx.monitor("threads:" + label, len(jobs))
+            if not compare(conc, r, ""):
+                return False
     finally:
         sys.setswitchinterval(old)
     return True
